@@ -17,7 +17,7 @@ CONSTANTS
   Msgs <- MsgsQ
   MCFreq = 2
   Switch <- SwitchQ
-  Rewidth <- RewidthQ
+  Rewidth <- NoSwitch
   Charsets <- CharsQ
   Depth = 4
 VIEW HView
